@@ -247,6 +247,8 @@ class World(object):
             i = op["i"] - 1
             name = c.absname(P.children[i]) if i < len(P.children) else "A"
             P.children[i] = c.text(name, op["v"])
+        elif o == "SetAtObj":
+            P.children[op["i"] - 1] = self.objs[op["c"]]
         elif o == "AddNew":
             c.add_new(P, op["n"])
         elif o == "AddObj":
@@ -491,6 +493,8 @@ def alphabet(names, objs, vals, maxkids):
             ops.append({"op": "Pop", "p": p, "i": i})
             ops.append({"op": "DelAt", "p": p, "i": i})
             ops.append({"op": "SetAt", "p": p, "i": i, "v": vals[-1]})
+            for c in range(1, objs + 1):
+                ops.append({"op": "SetAtObj", "p": p, "i": i, "c": c})
         for c in range(1, objs + 1):
             ops.append({"op": "AddObj", "p": p, "c": c})
             ops.append({"op": "Reparent", "p": p, "c": c})
@@ -659,7 +663,7 @@ def signature(e, clause):
         if row:
             sig["c_name_ok"] = row[0][1] in NAMES
             sig["c_level_same"] = row[0][3] == 1
-    if op["op"] in ("SetAt", "Pop", "DelAt", "Insert") and p:
+    if op["op"] in ("SetAt", "SetAtObj", "Pop", "DelAt", "Insert") and p:
         sig["i_in_range"] = op["i"] <= len(pre["kids"][p - 1])
     return sig
 
